@@ -199,8 +199,14 @@ def run(tier, seed, replay=None):
         except Exception:
             stats['unparsable'] += 1
             continue
+        try:
+            before = (tree0.to_tree(), str(tree0))
+        except Exception:
+            # the tree cannot even be printed (a listed C01 defect of some grammar-derived statements): the contract speaks of
+            # "the tree's own SQL string", so there is nothing to judge here
+            stats['own_string_unavailable'] = stats.get('own_string_unavailable', 0) + 1
+            continue
         stats['trees'] += 1
-        before = (tree0.to_tree(), str(tree0))
         for d in dialects:
             outs = []
             for fb in (False, True):
